@@ -56,7 +56,7 @@ theorem Eqv.trans {k : Nat} {s t u : Store} (h1 : Eqv k s t) (h2 : Eqv k t u) : 
 
 /-- the save queue and the `_save_pos_` fields agree -/
 def SaveOk (s : Store) : Prop :=
-  ∀ o, (∀ p, (s.row o).savePos = some p → s.toSave[p]? = some (some o)) ∧
+  ∀ o, o < s.n → (∀ p, (s.row o).savePos = some p → s.toSave[p]? = some (some o)) ∧
        ((s.row o).status = .inserted ∨ (s.row o).status = .updated → (s.row o).savePos = none)
 
 /-- running the trail from (a store equivalent to) the current store restores the store the call started from -/
@@ -116,10 +116,10 @@ theorem upd_row_same (s : Store) (o : ObjId) (f : Row → Row) : (s.upd o f).row
 theorem upd_row_other (s : Store) (o p : ObjId) (f : Row → Row) (h : p ≠ o) : (s.upd o f).row p = s.row p := by simp [Store.upd, h]
 
 /-- SaveOk only looks at status, savePos and the queue -/
-theorem SaveOk.of_eq {s s1 : Store} (h : SaveOk s) (hq : s1.toSave = s.toSave)
+theorem SaveOk.of_eq {s s1 : Store} (h : SaveOk s) (hq : s1.toSave = s.toSave) (hn : s1.n = s.n)
     (hr : ∀ o, (s1.row o).savePos = (s.row o).savePos ∧ (s1.row o).status = (s.row o).status) : SaveOk s1 := by
-  intro o
-  obtain ⟨h1, h2⟩ := h o
+  intro o ho
+  obtain ⟨h1, h2⟩ := h o (hn ▸ ho)
   obtain ⟨e1, e2⟩ := hr o
   refine ⟨fun p hp => ?_, fun hs => ?_⟩
   · rw [hq]; exact h1 p (e1 ▸ hp)
@@ -305,8 +305,8 @@ theorem MarkSpec.frame {s s1 s2 : Store} {o : ObjId} {pop : Bool} (h : MarkSpec 
   · rw [e2, e3]; exact a8
 
 theorem MarkSpec.saveOk {s s1 : Store} {o : ObjId} {pop : Bool} (h : MarkSpec s o s1 pop) (hs : SaveOk s) : SaveOk s1 := by
-  intro p
-  obtain ⟨h1, h2⟩ := hs p
+  intro p hp0
+  obtain ⟨h1, h2⟩ := hs p (h.n ▸ hp0)
   cases pop
   · have hq := h.q; simp only [Bool.false_eq_true, if_false] at hq
     by_cases hp : p = o
@@ -331,7 +331,7 @@ theorem MarkSpec.saveOk {s s1 : Store} {o : ObjId} {pop : Bool} (h : MarkSpec s 
 
 /-- pushing the closure of Attribute.__set__ (`oa = some (a, old value)`) / Entity.set (`oa = none`) after the marking, value write and index moves -/
 theorem step_markEntry {s0 : Store} {st : St} {s2 : Store} {o : ObjId} {pop : Bool} {moves : List IdxMove} (e : Undo) (oa : Option (AttrId × Option Nat))
-    (hspec : MarkSpec st.store o s2 pop) (hval : fixVal oa (s2.row o).val = (st.store.row o).val)
+    (ho : o < st.store.n) (hspec : MarkSpec st.store o s2 pop) (hval : fixVal oa (s2.row o).val = (st.store.row o).val)
     (hundo : ∀ t, undo1 t e = moves.foldl (undoMove o)
       (((if pop then popSave o (t.upd o fun r => { r with status := (st.store.row o).status, wbits := (st.store.row o).wbits })
          else (t.upd o fun r => { r with status := (st.store.row o).status, wbits := (st.store.row o).wbits })).upd o
@@ -348,7 +348,7 @@ theorem step_markEntry {s0 : Store} {st : St} {s2 : Store} {o : ObjId} {pop : Bo
     have hq := hspec.q
     cases pop
     · simp only [Bool.false_eq_true, if_false] at hq ⊢; exact ⟨hq.1, hq.2.1⟩
-    · simp only [if_true] at hq ⊢; exact ⟨hq.1, (g.save o).2 hq.2.1⟩
+    · simp only [if_true] at hq ⊢; exact ⟨hq.1, (g.save o ho).2 hq.2.1⟩
 
 /-! ### key entries popped by `_delete_` and restored by its closure -/
 
@@ -601,17 +601,17 @@ theorem popped_restore_pk {o : ObjId} {s s1 : Store} {ks : List IdxKey} (h : Pop
   rw [a3, e3]
   exact set2_undo _ _ _ _ _ hpk
 
-theorem SaveOk.punch {s : Store} (h : SaveOk s) (o : ObjId) (p : Nat) (hp : (s.row o).savePos = some p) (st' : Status)
+theorem SaveOk.punch {s : Store} (h : SaveOk s) (o : ObjId) (ho : o < s.n) (p : Nat) (hp : (s.row o).savePos = some p) (st' : Status)
     (hst : st' ≠ .inserted ∧ st' ≠ .updated) :
     SaveOk { (s.upd o fun r => { r with savePos := none, status := st' }) with toSave := s.toSave.set p none } := by
-  intro q
+  intro q hqn
   by_cases hq : q = o
   · rw [hq]; simp [Store.upd]
-  · obtain ⟨h1, h2⟩ := h q
+  · obtain ⟨h1, h2⟩ := h q hqn
     simp only [Store.upd, hq, if_false]
     refine ⟨fun p' hp' => ?_, h2⟩
     have e1 := h1 p' hp'
-    have e2 := (h o).1 p hp
+    have e2 := (h o ho).1 p hp
     by_cases hpp : p = p'
     · rw [hpp] at e2; rw [e1] at e2; cases e2; exact absurd rfl hq
     · rw [List.getElem?_set_ne hpp]; exact e1
@@ -619,7 +619,7 @@ theorem SaveOk.punch {s : Store} (h : SaveOk s) (o : ObjId) (p : Nat) (hp : (s.r
 theorem SaveOk.append {s : Store} (h : SaveOk s) (o : ObjId) (hp : (s.row o).savePos = none) (st' : Status)
     (hst : st' ≠ .inserted ∧ st' ≠ .updated) (m : Bool) :
     SaveOk { (s.upd o fun r => { r with savePos := some s.toSave.length, status := st' }) with toSave := s.toSave ++ [some o], modified := m } := by
-  intro q
+  intro q hqn
   by_cases hq : q = o
   · rw [hq]; simp only [Store.upd, if_true]
     refine ⟨fun p' hp' => ?_, fun hs => ?_⟩
@@ -627,7 +627,7 @@ theorem SaveOk.append {s : Store} (h : SaveOk s) (o : ObjId) (hp : (s.row o).sav
     · rcases hs with hs | hs
       · exact absurd hs hst.1
       · exact absurd hs hst.2
-  · obtain ⟨h1, h2⟩ := h q
+  · obtain ⟨h1, h2⟩ := h q hqn
     simp only [Store.upd, hq, if_false]
     refine ⟨fun p' hp' => ?_, h2⟩
     have e1 := h1 p' hp'
@@ -954,7 +954,7 @@ variable {s0 : Store}
 theorem step_touchKey (c : AttrId) (st : St) : Step s0 st (touchKey c st) := by
   unfold touchKey
   apply Step.unlogged
-  · intro g; exact g.save.of_eq rfl (fun o => ⟨rfl, rfl⟩)
+  · intro g; exact g.save.of_eq rfl rfl (fun o => ⟨rfl, rfl⟩)
   · exact Nat.le_refl _
   · intro g t ht; exact ⟨ht.n, ht.toSave, ht.pkIdx, ht.idx, ht.cidx, ht.modColl, ht.status, ht.row⟩
 
@@ -970,7 +970,7 @@ theorem step_rowMod (st : St) (s1 : Store) (c : AttrId) (obj : ObjId) (f g : Row
     Step s0 st ((st.setStore s1).log e) := by
   apply Step.push
   · intro gd
-    refine SaveOk.of_eq (s := st.store) gd.save e_q ?_
+    refine SaveOk.of_eq (s := st.store) gd.save e_q e_n ?_
     intro o
     rw [e_row]
     by_cases ho : o = obj
@@ -1041,7 +1041,7 @@ theorem step_reverseAdd (c : AttrId) (objs : List ObjId) (item : ObjId) (st : St
 theorem step_reverseRemove (c : AttrId) (objs : List ObjId) (item : ObjId) (st : St) : Step s0 st (reverseRemove c objs item st).st :=
   (step_touchKey c st).trans (step_iter (fun obj st => step_reverseRemove1 c item obj st) objs _)
 
-theorem step_refWrite (bit : Bool) (o : ObjId) (a : AttrId) (v : Option Nat) (st : St) : Step s0 st (refWrite bit o a v st) := by
+theorem step_refWrite (bit : Bool) (o : ObjId) (a : AttrId) (v : Option Nat) (st : St) (ho : o < st.store.n) : Step s0 st (refWrite bit o a v st) := by
   unfold refWrite
   dsimp only
   obtain ⟨hspec, hv, hidx0, hcidx0⟩ := mark_spec o (if bit then [a] else []) false st.store
@@ -1049,45 +1049,52 @@ theorem step_refWrite (bit : Bool) (o : ObjId) (a : AttrId) (v : Option Nat) (st
       (([] : List IdxMove).foldl (undoMove o) T).idx = st.store.idx ∧ (([] : List IdxMove).foldl (undoMove o) T).cidx = st.store.cidx :=
     fun h1 h2 _ T e1 e2 => ⟨e1.trans h1, e2.trans h2⟩
   split
-  · exact step_markEntry _ (some (a, (st.store.row o).val a)) hspec (by simp only [fixVal]; rw [hv, set1_self]) (fun t => rfl)
+  · exact step_markEntry _ (some (a, (st.store.row o).val a)) ho hspec (by simp only [fixVal]; rw [hv, set1_self]) (fun t => rfl)
       (hnil hidx0 hcidx0)
-  · exact step_markEntry _ (some (a, (st.store.row o).val a)) (hspec.setVal (fun r => set1 r.val a v))
+  · exact step_markEntry _ (some (a, (st.store.row o).val a)) ho (hspec.setVal (fun r => set1 r.val a v))
       (by simp only [fixVal, upd_row_same]; rw [hv, set1_set1, set1_self]) (fun t => rfl) (hnil hidx0 hcidx0)
 
 theorem step_attrClearRev (sch : Schema) (o : ObjId) (a : AttrId) (st : St) : Step s0 st (attrClearRev sch o a st).st := by
   unfold attrClearRev
   split
   · exact Step.refl _ _
-  · split
-    · dsimp only
-      split
-      · exact Step.refl _ _
-      · split
-        · exact step_refWrite _ _ _ _ _
-        · split
-          · exact (step_refWrite _ _ _ _ _).trans (step_reverseRemove _ _ _ _)
-          · exact step_refWrite _ _ _ _ _
+  · rename_i hlt
+    have ho : o < st.store.n := by simpa using hlt
+    split
     · exact Step.refl _ _
+    · split
+      · dsimp only
+        split
+        · exact Step.refl _ _
+        · split
+          · exact step_refWrite _ _ _ _ _ ho
+          · split
+            · exact (step_refWrite _ _ _ _ _ ho).trans (step_reverseRemove _ _ _ _)
+            · exact step_refWrite _ _ _ _ _ ho
+      · exact Step.refl _ _
 
 theorem step_attrSetRev (sch : Schema) (o : ObjId) (a : AttrId) (x : ObjId) (st : St) : Step s0 st (attrSetRev sch o a x st).st := by
   unfold attrSetRev
   split
   · exact Step.refl _ _
-  · split
-    · dsimp only
-      have h1 := step_refWrite (s0 := s0) ‹AttrDecl›.bit o a (some x) st
-      split
-      · exact step_refWrite _ _ _ _ _
-      · split
-        · exact step_refWrite _ _ _ _ _
-        · split
-          · exact (step_refWrite _ _ _ _ _).trans (step_reverseRemove _ _ _ _)
-          · split
-            · exact step_refWrite _ _ _ _ _
-            · split
-              · exact step_refWrite _ _ _ _ _
-              · exact (step_refWrite _ _ _ _ _).trans (step_attrClearRev _ _ _ _)
+  · rename_i hlt
+    have ho : o < st.store.n := by simpa using hlt
+    split
     · exact Step.refl _ _
+    · split
+      · dsimp only
+        split
+        · exact step_refWrite _ _ _ _ _ ho
+        · split
+          · exact step_refWrite _ _ _ _ _ ho
+          · split
+            · exact (step_refWrite _ _ _ _ _ ho).trans (step_reverseRemove _ _ _ _)
+            · split
+              · exact step_refWrite _ _ _ _ _ ho
+              · split
+                · exact step_refWrite _ _ _ _ _ ho
+                · exact (step_refWrite _ _ _ _ _ ho).trans (step_attrClearRev _ _ _ _)
+      · exact Step.refl _ _
 
 theorem rewriteSet_shape (s : Store) (o : ObjId) (c : AttrId) (new toAdd toRemove : ObjId → Bool) :
     ∃ (A R : ObjId → Bool) (N : Int), rewriteSet s o c new toAdd toRemove =
@@ -1151,7 +1158,7 @@ theorem step_finishDelete (sch : Schema) (o : ObjId) (st : St) (ho : o < st.stor
     -- the error exits that changed the key indexes only
     have hA : Step s0 st ((st.setStore s1).log (.del o (st.store.row o).status (st.store.row o).savePos keys)) := by
       apply step_delEntry ho
-      · intro g; exact g.save.of_eq hpop.toSave (fun p => by rw [hpop.row]; exact ⟨rfl, rfl⟩)
+      · intro g; exact g.save.of_eq hpop.toSave hpop.n (fun p => by rw [hpop.row]; exact ⟨rfl, rfl⟩)
       · exact hpop.n
       · exact hpop.modColl
       · intro p _; rw [hpop.row]
@@ -1177,9 +1184,9 @@ theorem step_finishDelete (sch : Schema) (o : ObjId) (st : St) (ho : o < st.stor
             intro KS P hidx
             apply step_delEntry ho
             · intro g
-              have h1 : SaveOk s1 := g.save.of_eq hpop.toSave (fun q => by rw [hpop.row]; exact ⟨rfl, rfl⟩)
-              have := h1.punch o p (by rw [hpop.row]; exact hp) .cancelled ⟨by simp, by simp⟩
-              exact this.of_eq rfl (fun q => ⟨rfl, rfl⟩)
+              have h1 : SaveOk s1 := g.save.of_eq hpop.toSave hpop.n (fun q => by rw [hpop.row]; exact ⟨rfl, rfl⟩)
+              have := h1.punch o (hpop.n ▸ ho) p (by rw [hpop.row]; exact hp) .cancelled ⟨by simp, by simp⟩
+              exact this.of_eq rfl rfl (fun q => ⟨rfl, rfl⟩)
             · exact hpop.n
             · exact hpop.modColl
             · intro q hq; simp [Store.upd, hq, hpop.row]
@@ -1189,7 +1196,7 @@ theorem step_finishDelete (sch : Schema) (o : ObjId) (st : St) (ho : o < st.stor
               refine ⟨by simp [Store.upd], p, hp, ?_⟩
               show (s1.toSave.set p none).set p (some o) = _
               rw [hpop.toSave]
-              exact list_set_set_self _ _ _ _ ((g.save o).1 p hp)
+              exact list_set_set_self _ _ _ _ ((g.save o ho).1 p hp)
           split
           · exact hB keys s1.pkIdx (fun T e1 e2 e3 => by
               obtain ⟨a1, a2, a3⟩ := popped_restore hpop T e1 e2
@@ -1237,12 +1244,12 @@ theorem step_finishDelete (sch : Schema) (o : ObjId) (st : St) (ho : o < st.stor
             · rename_i p hp
               cases hs2
               apply hD _ rfl
-              · intro g; rw [hp]; simp only; rw [hpop.toSave]; exact list_set_set_self _ _ _ _ ((g.save o).1 p hp)
+              · intro g; rw [hp]; simp only; rw [hpop.toSave]; exact list_set_set_self _ _ _ _ ((g.save o ho).1 p hp)
               · intro g
-                have h1 : SaveOk s1 := g.save.of_eq hpop.toSave (fun q => by rw [hpop.row]; exact ⟨rfl, rfl⟩)
-                have h2 := h1.punch o p (by rw [hpop.row]; exact hp) .modified ⟨by simp, by simp⟩
+                have h1 : SaveOk s1 := g.save.of_eq hpop.toSave hpop.n (fun q => by rw [hpop.row]; exact ⟨rfl, rfl⟩)
+                have h2 := h1.punch o (hpop.n ▸ ho) p (by rw [hpop.row]; exact hp) .modified ⟨by simp, by simp⟩
                 have h3 := h2.append o (by simp [Store.upd]) .marked ⟨by simp, by simp⟩ true
-                refine h3.of_eq rfl (fun q => ?_)
+                refine h3.of_eq rfl rfl (fun q => ?_)
                 by_cases hq : q = o
                 · rw [hq]; simp [Store.upd]
                 · simp [Store.upd, hq]
@@ -1257,7 +1264,7 @@ theorem step_finishDelete (sch : Schema) (o : ObjId) (st : St) (ho : o < st.stor
               apply hD s1.toSave rfl
               · intro g; rw [hnone]; exact hpop.toSave
               · intro g
-                have h1 : SaveOk s1 := g.save.of_eq hpop.toSave (fun q => by rw [hpop.row]; exact ⟨rfl, rfl⟩)
+                have h1 : SaveOk s1 := g.save.of_eq hpop.toSave hpop.n (fun q => by rw [hpop.row]; exact ⟨rfl, rfl⟩)
                 exact h1.append o (by rw [hpop.row]; exact hnone) .marked ⟨by simp, by simp⟩ true
 
 end prims
@@ -1379,6 +1386,410 @@ theorem step_delete : ∀ (fuel : Nat) (o : ObjId) (st : St), Step s0 st (delete
         exact step_bind hstepL (fun stB hB => step_finishDelete sch o stB
           (Nat.lt_of_lt_of_le (by simpa using hlt) (by rw [hB] at hstepL; exact hstepL.mono)))
 
+theorem step_updateReverse (fuel : Nat) (d rd : AttrDecl) (o : ObjId) (a : AttrId) (old v : Option ObjId) (st : St) :
+    Step s0 st (updateReverse sch fuel d rd o a old v st).st := by
+  unfold updateReverse
+  split
+  · apply step_bind
+    · split
+      · exact Step.refl _ _
+      · split
+        · exact Step.refl _ _
+        · split
+          · exact step_delete _ _ _
+          · split
+            · exact Step.refl _ _
+            · exact step_attrClearRev _ _ _ _
+    · intro st1 _
+      split
+      · exact Step.refl _ _
+      · exact step_attrSetRev _ _ _ _ _
+  · apply step_bind
+    · split
+      · exact Step.refl _ _
+      · exact step_reverseRemove _ _ _ _
+    · intro st1 _
+      split
+      · exact Step.refl _ _
+      · exact step_reverseAdd _ _ _ _
+
 end procs
+
+/-! ### the user calls: whenever one fails, running its undo list restores the store -/
+
+section top
+variable {sch : Schema} {s0 : Store}
+
+/-- if the call fails, the failing state is still restorable -/
+def ErrGood (s0 : Store) (st : St) (r : Res) : Prop := ∀ e st', r = .err e st' → Good s0 st → Good s0 st'
+
+theorem ErrGood.of_step {st : St} {r : Res} (h : Step s0 st r.st) : ErrGood s0 st r := by
+  intro e st' hr g; rw [hr] at h; exact h.good g
+
+theorem ErrGood.ok (st st' : St) : ErrGood s0 st (.ok st') := by
+  intro e st'' hr; cases hr
+
+theorem ErrGood.bind_ok {st : St} {r : Res} {g : St → Res} (h : Step s0 st r.st) (hg : ∀ st1, ∃ st2, g st1 = .ok st2) :
+    ErrGood s0 st (r.bind g) := by
+  cases r with
+  | ok st1 => obtain ⟨st2, h2⟩ := hg st1; simp only [Res.bind, h2]; exact ErrGood.ok _ _
+  | err e st1 => exact ErrGood.of_step h
+
+theorem KeyOk.of_eq {s s1 : Store} {o : ObjId} (h : KeyOk sch s o) (e1 : s1.idx = s.idx) (e2 : s1.cidx = s.cidx)
+    (e3 : (s1.row o).val = (s.row o).val) : KeyOk sch s1 o := by
+  refine ⟨?_, ?_, ?_, ?_⟩
+  · intro a v; rw [e1, e3]; exact h.idxVal a v
+  · intro a u; rw [e1, e3]; exact h.valIdx a u
+  · intro k vs; rw [e2, e3]; exact h.cidxVal k vs
+  · intro k us; rw [e2, e3]; exact h.valCidx k us
+
+theorem ckeysWith_nodup (sch : Schema) (a : AttrId) : (sch.ckeysWith a).Nodup := List.Pairwise.filter _ List.nodup_range
+theorem ckeysWith_lt (sch : Schema) (a : AttrId) : ∀ k, k ∈ sch.ckeysWith a → k < sch.ckeys.length := by
+  intro k hk; exact List.mem_range.mp (List.mem_filter.mp hk).1
+theorem ckeysOf_nodup (sch : Schema) (e : EntId) : (sch.ckeysOf e).Nodup := List.Pairwise.filter _ List.nodup_range
+theorem ckeysOf_lt (sch : Schema) (e : EntId) : ∀ k, k ∈ sch.ckeysOf e → k < sch.ckeys.length := by
+  intro k hk; exact List.mem_range.mp (List.mem_filter.mp hk).1
+
+/-- `Attribute.__set__` called by the user -/
+theorem errGood_attrSetTop (fuel : Nat) (o : ObjId) (a : AttrId) (v : Option Nat) (st : St) (ho : o < st.store.n) (hk : KeyOk sch st.store o) :
+    ErrGood s0 st (attrSetTop sch fuel o a v st) := by
+  unfold attrSetTop
+  dsimp only
+  split
+  · exact ErrGood.of_step (Step.refl _ _)
+  · split
+    · exact ErrGood.of_step (Step.refl _ _)
+    · rename_i d hd
+      obtain ⟨hspec, hv, hidx0, hcidx0⟩ := mark_spec o (if d.bit then [a] else []) false st.store
+      generalize hmk : mark o (if d.bit then [a] else []) false st.store = mk at hspec hv hidx0 hcidx0
+      obtain ⟨s1, pop⟩ := mk
+      simp only at hspec hv hidx0 hcidx0 ⊢
+      split
+      · exact ErrGood.ok _ _
+      · split
+        · refine ErrGood.of_step (step_markEntry _ (some (a, (st.store.row o).val a)) ho hspec (by simp only [fixVal]; rw [hv, set1_self]) (fun t => rfl) ?_)
+          intro _ T e1 e2; exact ⟨e1.trans hidx0, e2.trans hcidx0⟩
+        · have hm := runMoves_spec sch o (if d.unique then [a] else []) (sch.ckeysWith a) (set1 (st.store.row o).val a v) s1
+            (hk.of_eq hidx0 hcidx0 hv) (by split <;> simp) (ckeysWith_nodup sch a) (ckeysWith_lt sch a)
+            (by intro a' ha'; split at ha'
+                · rename_i hu; simp only [List.mem_singleton] at ha'; rw [ha', hd]; exact hu
+                · cases ha')
+          generalize runMoves sch o (if d.unique then [a] else []) (sch.ckeysWith a) (set1 (st.store.row o).val a v) s1 = mv at hm ⊢
+          cases mv with
+          | missing s2 m => exact absurd hm id
+          | conflict s2 m =>
+            obtain ⟨f1, f2, f3, f4, f5, f6⟩ := hm
+            refine ErrGood.of_step (step_markEntry _ (some (a, (st.store.row o).val a)) ho (hspec.frame f1 f2 f3 f4 f5)
+              (by simp only [fixVal]; rw [f2, hv, set1_self]) (fun t => rfl) ?_)
+            intro _ T e1 e2
+            obtain ⟨g1, g2⟩ := f6 T e1 e2
+            exact ⟨g1.trans hidx0, g2.trans hcidx0⟩
+          | done s2 m =>
+            obtain ⟨f1, f2, f3, f4, f5, f6⟩ := hm
+            have hstep : Step s0 st ((st.setStore (s2.upd o fun r => { r with val := set1 (st.store.row o).val a v })).log
+                (.attrSet o a (st.store.row o).status (st.store.row o).wbits pop ((st.store.row o).val a) m)) := by
+              refine step_markEntry _ (some (a, (st.store.row o).val a)) ho ((hspec.frame f1 f2 f3 f4 f5).setVal (fun _ => set1 (st.store.row o).val a v))
+                (by simp only [fixVal, upd_row_same]; rw [set1_set1, set1_self]) (fun t => rfl) ?_
+              intro _ T e1 e2
+              obtain ⟨g1, g2⟩ := f6 T e1 e2
+              exact ⟨g1.trans hidx0, g2.trans hcidx0⟩
+            simp only
+            split
+            · split
+              · exact ErrGood.of_step (hstep.trans (step_updateReverse _ _ _ _ _ _ _ _))
+              · exact ErrGood.of_step hstep
+            · exact ErrGood.ok _ _
+
+theorem upd_fixNone (X : Store) (o : ObjId) : (X.upd o fun r => { r with val := fixVal none r.val }) = X := upd_id X o
+
+theorem attrsOf_nodup (sch : Schema) (e : EntId) : (sch.attrsOf e).Nodup := List.Pairwise.filter _ List.nodup_range
+
+/-- `Entity.set` -/
+theorem errGood_setMany (fuel : Nat) (o : ObjId) (kw : List (AttrId × Arg)) (st : St) (ho : o < st.store.n) (hk : KeyOk sch st.store o) :
+    ErrGood s0 st (setMany sch fuel o kw st) := by
+  unfold setMany
+  dsimp only
+  generalize hav : (List.map (fun p => (p.1, argVal p.2)) (List.filter (fun p => !match sch.decl p.1 with | some d => decide (d.kind = Kind.coll) | none => false) kw)) = avdict
+  generalize hcv : (List.map (fun p => (p.1, argItems p.2)) (List.filter (fun p => match sch.decl p.1 with | some d => decide (d.kind = Kind.coll) | none => false) kw)) = collAv
+  -- the marking
+  have hmkspec : ∀ mk : Store × Bool, (mk = (if avdict.isEmpty = true then (st.store, false)
+        else mark o (List.filter (fun a => match sch.decl a with | some d => d.bit | none => false) (List.map (fun x => x.1) avdict)) true st.store)) →
+      MarkSpec st.store o mk.1 mk.2 ∧ (mk.1.row o).val = (st.store.row o).val ∧ mk.1.idx = st.store.idx ∧ mk.1.cidx = st.store.cidx := by
+    intro mk hmk
+    split at hmk
+    · rw [hmk]; exact ⟨⟨rfl, rfl, rfl, fun _ _ => rfl, ⟨rfl, rfl, rfl, rfl, rfl, rfl⟩, ⟨rfl, rfl, rfl⟩⟩, rfl, rfl, rfl⟩
+    · rw [hmk]; exact mark_spec _ _ _ _
+  generalize hmk : (if avdict.isEmpty = true then (st.store, false)
+        else mark o (List.filter (fun a => match sch.decl a with | some d => d.bit | none => false) (List.map (fun x => x.1) avdict)) true st.store) = mk
+  obtain ⟨hspec, hv, hidx0, hcidx0⟩ := hmkspec mk hmk.symm
+  obtain ⟨s1, pop⟩ := mk
+  simp only at hspec hv hidx0 hcidx0 ⊢
+  split
+  · exact ErrGood.ok _ _
+  · generalize hav2 : List.filter (fun p => (st.store.row o).val p.1 != p.2) avdict = av2
+    generalize hnv : (fun a => match List.find? (fun p => p.1 == a) av2 with | some p => p.2 | none => (st.store.row o).val a) = newVal
+    generalize hsimple : List.filter (fun a => (match sch.decl a with | some d => d.unique | none => false) && av2.any fun p => p.1 == a)
+      (sch.attrsOf (st.store.row o).ent) = simple
+    generalize hcomps : List.filter (fun k => (sch.keyAttrs k).any fun a => av2.any fun p => p.1 == a) (sch.ckeysOf (st.store.row o).ent) = comps
+    have hm := runMoves_spec sch o simple comps newVal s1 (hk.of_eq hidx0 hcidx0 hv)
+      (by rw [← hsimple]; exact List.Pairwise.filter _ (attrsOf_nodup sch _))
+      (by rw [← hcomps]; exact List.Pairwise.filter _ (ckeysOf_nodup sch _))
+      (by intro k hk'; rw [← hcomps] at hk'; exact ckeysOf_lt sch _ k (List.mem_filter.mp hk').1)
+      (by intro a ha; rw [← hsimple] at ha
+          have := (List.mem_filter.mp ha).2
+          simp only [Bool.and_eq_true] at this
+          exact this.1)
+    generalize runMoves sch o simple comps newVal s1 = mv at hm ⊢
+    have hentry : ∀ (s2 : Store) (m : List IdxMove), MovesOk o s1 s2 m →
+        Step s0 st ((st.setStore s2).log (.setMany o (st.store.row o).status (st.store.row o).wbits pop m)) := by
+      intro s2 m hm
+      obtain ⟨f1, f2, f3, f4, f5, f6⟩ := hm
+      refine step_markEntry _ none ho (hspec.frame f1 f2 f3 f4 f5) (by simp only [fixVal]; rw [f2, hv])
+        (fun t => by simp only [undo1]; rw [upd_fixNone]) ?_
+      intro _ T e1 e2
+      obtain ⟨g1, g2⟩ := f6 T e1 e2
+      exact ⟨g1.trans hidx0, g2.trans hcidx0⟩
+    cases mv with
+    | missing s2 m => exact absurd hm id
+    | conflict s2 m => exact ErrGood.of_step (hentry s2 m hm)
+    | done s2 m =>
+      simp only
+      apply ErrGood.bind_ok
+      · refine (hentry s2 m hm).trans ?_
+        apply step_bind
+        · apply step_iter
+          intro p s
+          split
+          · split
+            · split
+              · exact step_updateReverse _ _ _ _ _ _ _ _
+              · exact Step.refl _ _
+            · exact Step.refl _ _
+          · exact Step.refl _ _
+        · intro st1 _
+          apply step_iter
+          intro p s
+          exact step_setColl (fun x st => step_delete _ x st) true o p.1 p.2 s _ rfl (Or.inl rfl)
+      · intro st1; exact ⟨_, rfl⟩
+
+/-- `SetInstance.add` -/
+theorem errGood_collAdd (o : ObjId) (c : AttrId) (items : List ObjId) (st : St) : ErrGood s0 st (collAdd sch o c items st) := by
+  unfold collAdd
+  split
+  · exact ErrGood.of_step (Step.refl _ _)
+  · split
+    · dsimp only
+      split
+      · exact ErrGood.ok _ _
+      · apply ErrGood.bind_ok
+        · split
+          · exact step_iter (fun item st => step_attrSetRev sch item _ o st) _ _
+          · exact step_reverseAdd _ _ _ _
+        · intro st1; exact ⟨_, rfl⟩
+    · exact ErrGood.of_step (Step.refl _ _)
+
+/-- `SetInstance.remove` -/
+theorem errGood_collRemove (fuel : Nat) (o : ObjId) (c : AttrId) (items : List ObjId) (st : St) : ErrGood s0 st (collRemove sch fuel o c items st) := by
+  unfold collRemove
+  split
+  · exact ErrGood.of_step (Step.refl _ _)
+  · split
+    · dsimp only
+      split
+      · exact ErrGood.ok _ _
+      · apply ErrGood.bind_ok
+        · split
+          · split
+            · exact step_iter (fun x st => step_delete _ x st) _ _
+            · exact step_iter (fun item st => step_attrClearRev sch item _ st) _ _
+          · exact step_reverseRemove _ _ _ _
+        · intro st1; exact ⟨_, rfl⟩
+    · exact ErrGood.of_step (Step.refl _ _)
+
+/-- the allocation of the object under construction and its undo (`cache.objects.discard(obj)`, primary-key entry) -/
+theorem step_alloc (e : EntId) (pk : Option Nat) (st : St) (hn : st.store.n = s0.n)
+    (hfree : ∀ p, pk = some p → st.store.pkIdx e p = none) :
+    Step s0 st ((st.setStore (st.store.alloc e pk)).log (.created st.store.n e pk)) := by
+  unfold Store.alloc
+  apply Step.push
+  · intro g q
+    obtain ⟨h1, h2⟩ := g.save q
+    cases pk <;>
+    · simp only
+      by_cases hq : q = st.store.n
+      · simp [hq]
+      · simp only [hq, if_false]; exact ⟨h1, h2⟩
+  · cases pk <;> exact Nat.le_succ _
+  · intro g t ht
+    have hlt : ∀ q, q < s0.n → q ≠ st.store.n := fun q hq => by rw [hn]; exact Nat.ne_of_lt hq
+    cases pk with
+    | none =>
+      simp only [undo1]
+      refine ⟨rfl, ht.toSave, ht.pkIdx, ht.idx, ht.cidx, ht.modColl, ?_, ?_⟩
+      · intro q hq
+        have := ht.status q (Nat.lt_succ_of_lt hq)
+        simp only [Nat.ne_of_lt hq, if_false] at this; exact this
+      · intro q hq
+        have := ht.row q hq
+        simp only [hlt q hq, if_false] at this; exact this
+    | some p =>
+      have hpk : t.pkIdx = set2 st.store.pkIdx e p (some st.store.n) := ht.pkIdx.symm
+      simp only [undo1]
+      have hhit : t.pkIdx e p = some st.store.n := by rw [hpk]; simp [set2]
+      simp only [hhit, if_true]
+      refine ⟨rfl, ht.toSave, ?_, ht.idx, ht.cidx, ht.modColl, ?_, ?_⟩
+      · show st.store.pkIdx = set2 t.pkIdx e p none
+        rw [hpk]; exact (set2_undo _ _ _ _ _ (hfree p rfl)).symm
+      · intro q hq
+        have := ht.status q (Nat.lt_succ_of_lt hq)
+        simp only [Nat.ne_of_lt hq, if_false] at this; exact this
+      · intro q hq
+        have := ht.row q hq
+        simp only [hlt q hq, if_false] at this; exact this
+
+/-- `obj._vals_[attr] = val` on the object under construction: no undo is registered, none is needed (the object is discarded) -/
+theorem step_freshVal (id : ObjId) (f : Row → Row) (st : St) (hid : s0.n ≤ id)
+    (hf : ∀ r, (f r).status = r.status ∧ (f r).savePos = r.savePos) : Step s0 st (st.setStore (st.store.upd id f)) := by
+  apply Step.unlogged
+  · intro g
+    refine SaveOk.of_eq (s := st.store) g.save rfl rfl ?_
+    intro q
+    by_cases hq : q = id
+    · rw [hq, upd_row_same]; exact ⟨(hf _).2, (hf _).1⟩
+    · rw [upd_row_other _ _ _ _ hq]; exact ⟨rfl, rfl⟩
+  · exact Nat.le_refl _
+  · intro g t ht
+    refine ⟨ht.n, ht.toSave, ht.pkIdx, ht.idx, ht.cidx, ht.modColl, ?_, ?_⟩
+    · intro q hq
+      have := ht.status q hq
+      by_cases hqi : q = id
+      · rw [hqi] at this ⊢; rw [upd_row_same, (hf _).1] at this; exact this
+      · rw [upd_row_other _ _ _ _ hqi] at this; exact this
+    · intro q hq
+      have := ht.row q hq
+      have hqi : q ≠ id := fun e => by rw [e] at hq; exact absurd hq (Nat.not_lt.mpr hid)
+      rw [upd_row_other _ _ _ _ hqi] at this; exact this
+
+/-- `Entity.__init__` -/
+theorem errGood_create (fuel : Nat) (e : EntId) (pk : Option Nat) (vals : List (AttrId × Arg)) (st : St) (hn : st.store.n = s0.n) :
+    ErrGood s0 st (create sch fuel e pk vals st) := by
+  unfold create
+  dsimp only
+  split
+  · exact ErrGood.of_step (Step.refl _ _)
+  · split
+    · exact ErrGood.of_step (Step.refl _ _)
+    · split
+      · exact ErrGood.of_step (Step.refl _ _)
+      · split
+        · exact ErrGood.of_step (Step.refl _ _)
+        · rename_i hfree
+          apply ErrGood.bind_ok
+          · refine (step_alloc e pk st hn ?_).trans ?_
+            · intro p hp
+              rw [hp] at hfree
+              simp only [pkTaken, Bool.not_eq_true, Option.isSome_eq_false_iff, Option.isNone_iff_eq_none] at hfree
+              exact hfree
+            · apply step_iter
+              intro a s
+              split
+              · split
+                · exact step_setColl (fun x st => step_delete _ x st) true _ a _ s _ rfl (Or.inl rfl)
+                · have h1 := step_freshVal (s0 := s0) st.store.n (fun r => { r with val := set1 r.val a (argVal (match lookupArg vals a, sch.decl a with
+                      | some x, _ => x
+                      | none, some d => if d.kind = Kind.coll then Arg.coll [] else Arg.val none
+                      | none, none => Arg.val none)) }) s (Nat.le_of_eq hn.symm) (fun r => ⟨rfl, rfl⟩)
+                  split
+                  · split
+                    · exact h1.trans (step_updateReverse _ _ _ _ _ _ _ _)
+                    · exact h1
+                  · exact h1
+              · exact Step.refl _ _
+          · intro st1; exact ⟨_, rfl⟩
+
+/-- the key indexes hold exactly the current key values of every live object -/
+def IdxOk (sch : Schema) (s : Store) : Prop := ∀ o, o < s.n → (s.row o).status.isDel = false → KeyOk sch s o
+
+/-- every user call: if it fails, the state it fails in is restorable -/
+theorem errGood_run1 (op : Op) (s : Store) (hk : IdxOk sch s) : ErrGood s { store := s } (run1 sch op { store := s }) := by
+  unfold run1
+  dsimp only
+  cases op with
+  | flush ids => exact ErrGood.ok _ _
+  | create e pk vals =>
+    simp only
+    split
+    · exact errGood_create _ _ _ _ _ rfl
+    · exact ErrGood.of_step (Step.refl _ _)
+  | set o a v =>
+    simp only
+    split
+    · exact ErrGood.of_step (Step.refl _ _)
+    · rename_i hok
+      split
+      · exact ErrGood.of_step (Step.refl _ _)
+      · rename_i hnd
+        split
+        · exact ErrGood.of_step (Step.refl _ _)
+        · split
+          · intro e st' hr g
+            exact (step_setColl (fun x st => step_delete _ x st) false o a _ _ _ hr (Or.inr ⟨e, st', rfl⟩)).good g
+          · have holt : o < s.n := by
+              unfold attrOk at hok
+              split at hok
+              · assumption
+              · cases hok
+            exact errGood_attrSetTop _ _ _ _ _ holt (hk o holt (by simpa using hnd))
+  | setMany o kw =>
+    simp only
+    split
+    · rename_i hlt
+      split
+      · exact ErrGood.of_step (Step.refl _ _)
+      · rename_i hnd
+        split
+        · exact ErrGood.of_step (Step.refl _ _)
+        · exact errGood_setMany _ _ _ _ hlt (hk o hlt (by simpa using hnd))
+    · exact ErrGood.of_step (Step.refl _ _)
+  | add o c items =>
+    simp only
+    split
+    · exact ErrGood.of_step (Step.refl _ _)
+    · split
+      · exact ErrGood.of_step (Step.refl _ _)
+      · split
+        · exact ErrGood.of_step (Step.refl _ _)
+        · exact errGood_collAdd _ _ _ _
+  | remove o c items =>
+    simp only
+    split
+    · exact ErrGood.of_step (Step.refl _ _)
+    · split
+      · exact ErrGood.of_step (Step.refl _ _)
+      · split
+        · exact ErrGood.of_step (Step.refl _ _)
+        · exact errGood_collRemove _ _ _ _ _
+  | clear o c =>
+    simp only
+    split
+    · exact ErrGood.of_step (Step.refl _ _)
+    · split
+      · intro e st' hr g
+        exact (step_setColl (fun x st => step_delete _ x st) false o c _ _ _ hr (Or.inr ⟨e, st', rfl⟩)).good g
+      · exact ErrGood.of_step (Step.refl _ _)
+  | delete o =>
+    simp only
+    split
+    · exact ErrGood.of_step (step_delete _ _ _)
+    · exact ErrGood.of_step (Step.refl _ _)
+
+/-- a call that raises: running its undo list gives back the store the call started from -/
+theorem failing_call_restores (op : Op) (s : Store) (e : Err) (st' : St) (hs : SaveOk s) (hk : IdxOk sch s)
+    (h : run1 sch op { store := s } = .err e st') : Eqv s.n (undoAll st'.trail st'.store) s := by
+  have g0 : Good s ({ store := s } : St) := ⟨hs, Nat.le_refl _, fun t ht => ht.symm⟩
+  have g := errGood_run1 (sch := sch) op s hk e st' h g0
+  exact g.restores st'.store (Eqv.refl _ _)
+
+end top
 
 end PonyVerif.Model.Undo
